@@ -258,62 +258,77 @@ def willPropLen (p : Connect) (w : Publish) : Nat :=
   userPropsLen w.userProps + optLen 5 p.willDelay + optLen 2 w.payloadFormat + optLen 5 w.messageExpiry
     + optBytesPropLen w.contentType + optBytesPropLen w.responseTopic + optBytesPropLen w.correlationData
 
-/-- `compute_connect_packet_length_properties5`: (remaining, connect props, will props) -/
-def connectLengths5 (p : Connect) : Option (Nat × Nat × Nat) :=
-  let propLen := userPropsLen p.userProps + optLen 5 p.sessionExpiry + optLen 3 p.receiveMaximum
+/-- length of the CONNECT properties -/
+def connectPropLen (p : Connect) : Nat :=
+  userPropsLen p.userProps + optLen 5 p.sessionExpiry + optLen 3 p.receiveMaximum
     + optLen 5 p.maximumPacketSize + optLen 3 p.topicAliasMaximum + optLen 2 p.requestResponseInfo
     + optLen 2 p.requestProblemInfo + optBytesPropLen p.authMethod + optBytesPropLen p.authData
-  match vliSize propLen with
+
+/-- (length of the will part of the payload, will property length); `none` = VLI out of range -/
+def willPart (p : Connect) : Option (Nat × Nat) :=
+  match p.will with
+  | none => some (0, 0)
+  | some w =>
+    let wpl := willPropLen p w
+    match vliSize wpl with
+    | none => none
+    | some ws => some (wpl + ws + 2 + w.topic.length + optBytesLen w.payload, wpl)
+
+/-- length of the user name / password part of the payload -/
+def credLen (p : Connect) : Nat :=
+  (match p.username with | none => 0 | some u => 2 + u.length)
+  + (match p.password with | none => 0 | some u => 2 + u.length)
+
+/-- `compute_connect_packet_length_properties5`: (remaining, connect props, will props) -/
+def connectLengths5 (p : Connect) : Option (Nat × Nat × Nat) :=
+  match vliSize (connectPropLen p) with
   | none => none
   | some s =>
-    let vh := s + 10 + propLen
-    let payload0 := optBytesLen p.clientId
-    let willPart : Option (Nat × Nat) :=
-      match p.will with
-      | none => some (0, 0)
-      | some w =>
-        let wpl := willPropLen p w
-        match vliSize wpl with
-        | none => none
-        | some ws => some (wpl + ws + 2 + w.topic.length + optBytesLen w.payload, wpl)
-    match willPart with
+    match willPart p with
     | none => none
     | some (wlen, wpl) =>
-      let total := payload0 + wlen
-        + (match p.username with | none => 0 | some u => 2 + u.length)
-        + (match p.password with | none => 0 | some u => 2 + u.length) + vh
-      if total > maxVli then none else some (total, propLen, wpl)
+      let total := optBytesLen p.clientId + wlen + credLen p + (s + 10 + connectPropLen p)
+      if total > maxVli then none else some (total, connectPropLen p, wpl)
+
+def connectPropSteps (p : Connect) : List Step :=
+  stOptNum .u32 17 p.sessionExpiry
+    ++ stOptNum .u16 33 p.receiveMaximum
+    ++ stOptNum .u32 39 p.maximumPacketSize
+    ++ stOptNum .u16 34 p.topicAliasMaximum
+    ++ stOptBool 25 p.requestResponseInfo
+    ++ stOptBool 23 p.requestProblemInfo
+    ++ stOptBytesProp 21 p.authMethod
+    ++ stOptBytesProp 22 p.authData
+    ++ stUserProps p.userProps
+
+def willSteps (p : Connect) (wpl : Nat) : List Step :=
+  match p.will with
+  | none => []
+  | some w =>
+    [Step.vli wpl]
+    ++ stOptNum .u32 24 p.willDelay
+    ++ stOptNum .u8 1 w.payloadFormat
+    ++ stOptNum .u32 2 w.messageExpiry
+    ++ stOptBytesProp 3 w.contentType
+    ++ stOptBytesProp 8 w.responseTopic
+    ++ stOptBytesProp 9 w.correlationData
+    ++ stUserProps w.userProps
+    ++ stLenBytes w.topic
+    ++ stLenOptBytes w.payload
+
+def credSteps (p : Connect) : List Step :=
+  (match p.username with | none => [] | some u => stLenBytes u)
+  ++ (match p.password with | none => [] | some u => stLenBytes u)
 
 def connectSteps5 (p : Connect) : Option (List Step) :=
   match connectLengths5 p with
   | none => none
   | some (rl, pl, wpl) =>
     some ([Step.u8 16, .vli rl, .slice protocolBytes5, .u8 (connectFlags p), .u16 p.keepAlive, .vli pl]
-      ++ stOptNum .u32 17 p.sessionExpiry
-      ++ stOptNum .u16 33 p.receiveMaximum
-      ++ stOptNum .u32 39 p.maximumPacketSize
-      ++ stOptNum .u16 34 p.topicAliasMaximum
-      ++ stOptBool 25 p.requestResponseInfo
-      ++ stOptBool 23 p.requestProblemInfo
-      ++ stOptBytesProp 21 p.authMethod
-      ++ stOptBytesProp 22 p.authData
-      ++ stUserProps p.userProps
+      ++ connectPropSteps p
       ++ stLenOptBytes p.clientId
-      ++ (match p.will with
-          | none => []
-          | some w =>
-            [Step.vli wpl]
-            ++ stOptNum .u32 24 p.willDelay
-            ++ stOptNum .u8 1 w.payloadFormat
-            ++ stOptNum .u32 2 w.messageExpiry
-            ++ stOptBytesProp 3 w.contentType
-            ++ stOptBytesProp 8 w.responseTopic
-            ++ stOptBytesProp 9 w.correlationData
-            ++ stUserProps w.userProps
-            ++ stLenBytes w.topic
-            ++ stLenOptBytes w.payload)
-      ++ (match p.username with | none => [] | some u => stLenBytes u)
-      ++ (match p.password with | none => [] | some u => stLenBytes u))
+      ++ willSteps p wpl
+      ++ credSteps p)
 
 def connectLength311 (p : Connect) : Option Nat :=
   let total := 10 + optBytesLen p.clientId
